@@ -1,4 +1,7 @@
 import Pcore.Proofs.TlsDefs
+import Pcore.Proofs.TlsReach
+import Pcore.Proofs.Gid
+import Pcore.Model.TlsFacts
 /-!
 # C14 — Contexts are confined to their goroutine and dynamic scope
 
@@ -251,6 +254,210 @@ theorem C14_released_goroutine (ex : Prog → Gid → CtxId → World → Outcom
 
 /-- non-vacuity: goroutines did run and did hold tables (five goroutines were created and ended) -/
 example : (run .now [1, 1, 1] (.seq (.fork (.go (.fork .obs))) (.seq (.go .panic) (.fork (.dodo 1 .obs))))).nextGid = 6 := by decide
+
+/-! ## arbitrary interleavings: the small-step semantics (`Model/TlsSmall.lean`)
+
+`Reachable p c`: `c` is reached from the initial configuration of the op (`pcore.Do(p)` on a fresh goroutine) by ANY sequence of
+micro-steps of ANY goroutines that exist at that point.  The theorems below are invariants of `Reachable`. -/
+
+theorem init_log (p : Prog) : (Cfg.init p).w.log = [] := rfl
+
+/-- current, as an observation: whatever the interleaving, every `CurrentContext()` returned the context handed to the body -/
+theorem C14s_current {p : Prog} {c : Cfg} (h : Reachable p c) (g : Gid) (cur : Option CtxId) (lex : CtxId) (tag : Option Nat)
+    (st : List Nat) (hm : (g, Ev.obs cur lex tag st) ∈ c.w.log) : cur = some lex := by
+  rcases reachable_inv h with h | h
+  · subst h; simp [init_log] at hm
+  · exact (h.logOK _ hm).1
+
+/-- current and restore, as a state invariant: at EVERY point of EVERY interleaving — before and after inner scopes returned
+    or panicked, in the middle of unwinding — the goroutine's current context is the one its next body frame was handed, and it
+    was installed for this goroutine (the only exception: the root goroutine before it has entered `Do`) -/
+theorem C14s_current_state {p : Prog} {c : Cfg} (h : Reachable p c) (hne : c ≠ Cfg.init p) (g : GS) (hg : g ∈ c.gs)
+    (hs : g.started = true) (q : Prog) (cx : CtxId) (k : List Frame) (hk : g.k = .run q cx :: k) :
+    tlGet g.gid ctxKey c.w = some cx ∧ (g.gid, cx) ∈ c.w.estab := by
+  rcases reachable_inv h with h | h
+  · exact absurd h hne
+  · have := (h.gok g hg).st hs
+    rw [hk] at this
+    exact ⟨this.1, this.2.1⟩
+
+/-- confined -/
+theorem C14s_confined {p : Prog} {c : Cfg} (h : Reachable p c) (g g' : Gid) (ctx lex : CtxId) (tag : Option Nat) (st : List Nat)
+    (hm : (g, Ev.obs (some ctx) lex tag st) ∈ c.w.log) :
+    (g, ctx) ∈ c.w.estab ∧ ((g', ctx) ∈ c.w.estab → g' = g) := by
+  rcases reachable_inv h with h | h
+  · subst h; simp [init_log] at hm
+  · obtain ⟨h1, h2⟩ := h.logOK _ hm
+    have hc : ctx = lex := by simpa using h1
+    subst hc
+    exact ⟨h2, fun h3 => h.winv.estabUniq g' g ctx h3 h2⟩
+
+/-- a step of one goroutine never touches another goroutine's table -/
+theorem C14s_tls_local {p : Prog} {c : Cfg} (h : Reachable p c) (i : Nat) (g : GS) (hi : c.gs[i]? = some g) (gid : Gid)
+    (hne : gid ≠ g.gid) : (c.step i).w.tls gid = c.w.tls gid := by
+  have e : (c.step i).w = (stepG g c.w).w := by simp [Cfg.step, hi]
+  rw [e]
+  rcases reachable_inv h with h | h
+  · subst h
+    cases i with
+    | zero =>
+      simp [Cfg.init] at hi; subst hi
+      simp only [stepG, Cfg.init]
+      have sp := doEnter_spec (gid := 0) (ctx0 := 0) (k0 := [.run (.dodo 1000 p) 0, .endRoot]) (k := [.endRoot]) (id := 1000)
+        (ctch := false) (p := p) (w := {}) (inv_init []) rfl (Nat.zero_lt_one) ⟨rfl, rfl⟩
+      exact sp.loc.tls gid hne
+    | succ i => simp [Cfg.init] at hi
+  · exact (stepG_spec h.winv h.nopend (h.gok g (mem_of_getElem? hi))).loc.tls gid hne
+
+/-- fork isolation, per step: a micro-step of goroutine `g` changes no context object other than those installed for `g`
+    (and the one made for it, before it starts) -/
+theorem C14s_step_frame {p : Prog} {c : Cfg} (h : Reachable p c) (i : Nat) (g : GS) (hi : c.gs[i]? = some g)
+    (j : Nat) (hj : j < c.w.nextCtx) (hne : (g.gid, j) ∉ c.w.estab) (h0 : ¬(g.started = false ∧ j = g.ctx0)) :
+    (c.step i).w.ctxs j = c.w.ctxs j := by
+  have e : (c.step i).w = (stepG g c.w).w := by simp [Cfg.step, hi]
+  rw [e]
+  rcases reachable_inv h with h | h
+  · subst h; simp [Cfg.init] at hj
+  · exact (stepG_spec h.winv h.nopend (h.gok g (mem_of_getElem? hi))).frame j hj hne h0
+
+/-- … in particular: contexts installed for ANOTHER goroutine (parent, child, sibling — running, suspended, ended) -/
+theorem C14s_other_goroutines_contexts {p : Prog} {c : Cfg} (h : Reachable p c) (hn : c ≠ Cfg.init p) (i : Nat) (g : GS)
+    (hi : c.gs[i]? = some g) (g' : Gid) (j : CtxId) (hj : (g', j) ∈ c.w.estab) (hne : g' ≠ g.gid) :
+    (c.step i).w.ctxs j = c.w.ctxs j := by
+  rcases reachable_inv h with hh | hh
+  · exact absurd hh hn
+  · apply C14s_step_frame h i g hi j (hh.winv.estabLt g' j hj)
+    · intro hc; exact hne (hh.winv.estabUniq g' g.gid j hj hc)
+    · intro ⟨hs, hj0⟩
+      exact ((hh.gok g (mem_of_getElem? hi)).unst hs).2.2.1 g' (hj0 ▸ hj)
+
+/-- … and the context made for a goroutine that has not started yet: whoever steps (its parent included), the waiting
+    child's view stays the one of the `Fork` call -/
+theorem C14s_waiting_child_view {p : Prog} {c : Cfg} (h : Reachable p c) (hn : c ≠ Cfg.init p) (i : Nat) (g : GS)
+    (hi : c.gs[i]? = some g) (n : GS) (hnm : n ∈ c.gs) (hns : n.started = false) (hne : n.gid ≠ g.gid) :
+    (c.step i).w.ctxs n.ctx0 = c.w.ctxs n.ctx0 := by
+  rcases reachable_inv h with hh | hh
+  · exact absurd hh hn
+  · obtain ⟨_, h2, h3, _, _⟩ := (hh.gok n hnm).unst hns
+    apply C14s_step_frame h i g hi n.ctx0 h2 (h3 g.gid)
+    intro ⟨hs, hj0⟩
+    exact hne (hh.ctx0Uniq n hnm g (mem_of_getElem? hi) hns hs hj0)
+
+/-- the view at the `Fork`/`Go` call: the step that starts a goroutine gives it a new context object holding the caller's
+    variables and stack of that moment; the new goroutine has not started and owns no table -/
+theorem C14s_fork_view {p : Prog} {c : Cfg} (h : Reachable p c) (hn : c ≠ Cfg.init p) (g : GS) (hg : g ∈ c.gs) (n : GS)
+    (hsp : (stepG g c.w).spawned = some n) (q : Prog) (cx : CtxId) (k : List Frame) (hk : g.k = .run q cx :: k) :
+    n.gid = c.w.nextGid ∧ n.started = false ∧ n.ctx0 = c.w.nextCtx ∧ (stepG g c.w).w.tls n.gid = none ∧
+    ((stepG g c.w).w.ctxs n.ctx0).vars = (c.w.ctxs cx).vars ∧ ((stepG g c.w).w.ctxs n.ctx0).stack = (c.w.ctxs cx).stack := by
+  rcases reachable_inv h with hh | hh
+  · exact absurd hh hn
+  · have sp := (stepG_spec hh.winv hh.nopend (hh.gok g hg)).spawned n hsp
+    rw [hk] at sp
+    exact ⟨sp.1, sp.2.2.1, sp.2.2.2.1, (sp.2.1.unst sp.2.2.1).1, sp.2.2.2.2.1, sp.2.2.2.2.2⟩
+
+/-- released: a goroutine that has ended has no goroutine-local table — at every point of every interleaving -/
+theorem C14s_released_goroutine {p : Prog} {c : Cfg} (h : Reachable p c) (g : GS) (hg : g ∈ c.gs) (hd : g.done = true) :
+    c.w.tls g.gid = none := by
+  simp only [GS.done, Bool.and_eq_true, List.isEmpty_iff] at hd
+  rcases reachable_inv h with hh | hh
+  · subst hh; simp [Cfg.init] at hg; subst hg; simp at hd
+  · have := (hh.gok g hg).st hd.1
+    rw [hd.2] at this
+    exact (tlGet_none_iff hh.winv).1 this
+
+/-- … and when all have ended no table is left -/
+theorem C14s_released {p : Prog} {c : Cfg} (h : Reachable p c) (hall : ∀ g ∈ c.gs, g.done = true) :
+    (∀ gid, c.w.tls gid = none) ∧ live c.w = 0 := by
+  have hnone : ∀ gid, c.w.tls gid = none := by
+    intro gid
+    rcases reachable_inv h with hh | hh
+    · subst hh; rfl
+    · cases ht : c.w.tls gid with
+      | none => rfl
+      | some t =>
+        obtain ⟨g, hg, hgid, _⟩ := hh.cover gid (by rw [ht]; simp)
+        have := C14s_released_goroutine h g hg (hall g hg)
+        rw [hgid, ht] at this; cases this
+  exact ⟨hnone, by simp [live, hnone]⟩
+
+/-- non-vacuity (and an end-to-end instance): the parent sets a=1, forks, sets a=2 — and only THEN the child starts and reads
+    `a`: it reads 1 while the parent's context holds 2; both goroutines hold a table.  Later both have ended (the child by a
+    panic inside a nested DoWithContext), every table is gone, and each goroutine logged only its own contexts. -/
+def sampleInter : Prog :=
+  .seq (.set "a" 1) (.seq (.fork (.seq (.get "a") (.seq (.set "a" 5) (.doctx 1 (.seq .obs .panic)))))
+    (.seq (.set "a" 2) (.seq (.get "a") .obs)))
+def sampleSched1 : List Nat := [0, 0, 0, 0, 0, 0, 0, 0, 1, 1, 1]
+def sampleSched2 : List Nat := sampleSched1 ++ [1, 1, 1, 1, 1, 1, 1, 0, 0, 0, 1, 1, 1, 1, 0, 0, 0, 0, 0, 0, 0]
+
+example : Reachable sampleInter (Cfg.steps sampleSched1 (Cfg.init sampleInter)) := reachable_steps _ Reachable.init
+example : (Cfg.steps sampleSched1 (Cfg.init sampleInter)).w.log = [(1, .get "a" (some 1))] ∧
+    aget "a" ((Cfg.steps sampleSched1 (Cfg.init sampleInter)).w.ctxs 1).vars = some 2 ∧
+    ((List.range 3).map fun g => ((Cfg.steps sampleSched1 (Cfg.init sampleInter)).w.tls g).isSome) = [true, true, false] := by
+  decide
+example : ((Cfg.steps sampleSched2 (Cfg.init sampleInter)).gs.map fun g => (g.gid, g.done)) = [(0, true), (1, true)] ∧
+    (Cfg.steps sampleSched2 (Cfg.init sampleInter)).w.log =
+      [(1, .get "a" (some 1)), (1, .obs (some 3) 3 (some 1) []), (0, .get "a" (some 2)), (0, .obs (some 1) 1 (some 1000) []),
+       (1, .done .panicked), (0, .done .normal)] ∧
+    (Cfg.steps sampleSched2 (Cfg.init sampleInter)).w.estab = [(0, 0), (0, 1), (1, 2), (1, 3)] := by decide
+example : ∀ gid, (Cfg.steps sampleSched2 (Cfg.init sampleInter)).w.tls gid = none :=
+  (C14s_released (reachable_steps _ Reachable.init) (by decide)).1
+
+/-! ## second tie: the regenerated shape table selects the model variant -/
+
+/-- obligation over the table regenerated from px/context.go, internal/context.go, internal/runtime.go, threadlocal/gid.go on every
+    run: the code has the shape the model `Ver.now` mirrors (deferred restore in DoWithContext, Init paired with a deferred
+    Cleanup, `c.Fork()` before the `go` statement, goroutine body `defer Cleanup(); Init(); Set`, stack and vars copied into
+    fresh storage by `pxContext.Fork`, loader wrapped, Do/Try through a scoped root …).  A change of any of these statements
+    breaks THIS theorem (and the harness then looks for a failing program). -/
+theorem C14_facts_now : Pcore.CtxFacts.classify Pcore.Generated.ctxFacts = .now := by decide
+
+/-- each named obligation separately (so that a broken build says which one) -/
+theorem C14_facts_restoresCurrent : Pcore.CtxFacts.restoresCurrent Pcore.Generated.ctxFacts = true := by decide
+theorem C14_facts_releasesTable : Pcore.CtxFacts.releasesTable Pcore.Generated.ctxFacts = true := by decide
+theorem C14_facts_forkCopiesInCaller : Pcore.CtxFacts.forkCopiesInCaller Pcore.Generated.ctxFacts = true := by decide
+theorem C14_facts_goroutineReleases : Pcore.CtxFacts.goroutineReleases Pcore.Generated.ctxFacts = true := by decide
+theorem C14_facts_ctxForkCopies : Pcore.CtxFacts.ctxForkCopies Pcore.Generated.ctxFacts = true := by decide
+theorem C14_facts_loaderRestored : Pcore.CtxFacts.loaderRestored Pcore.Generated.ctxFacts = true := by decide
+theorem C14_facts_doUsesScopedRoot : Pcore.CtxFacts.doUsesScopedRoot Pcore.Generated.ctxFacts = true := by decide
+
+/-- the variant the driver runs is the one the theorems are about -/
+theorem C14_impl_ver : implVer = .now := by
+  unfold implVer; rw [C14_facts_now]; rfl
+
+/-- … so they hold of it: instances on the model selected by the table -/
+theorem C14_impl_restore (f : Nat) (p : Prog) (g c : Nat) (w : World) (h : Pre g c w) :
+    (exec implVer f p g c w).2.tls = w.tls := by rw [C14_impl_ver]; exact C14_restore f p g c w h
+theorem C14_impl_current (sched : List Nat) (p : Prog) (g : Gid) (cur : Option CtxId) (lex : CtxId) (tag : Option Nat)
+    (st : List Nat) (h : (g, Ev.obs cur lex tag st) ∈ (run implVer sched p).log) : cur = some lex := by
+  rw [C14_impl_ver] at h; exact C14_current sched p g cur lex tag st h
+theorem C14_impl_released (sched : List Nat) (p : Prog) :
+    (∀ g, (run implVer sched p).tls g = none) ∧ live (run implVer sched p) = 0 := by
+  rw [C14_impl_ver]; exact C14_released sched p
+
+/-- the hand-written shape of the original code is what `Ver.before` mirrors; it fails exactly the repaired obligations -/
+example : verOf (Pcore.CtxFacts.classify Pcore.CtxFacts.factsBefore) = .before := by decide
+example : Pcore.CtxFacts.releasesTable Pcore.CtxFacts.factsBefore = false ∧
+    Pcore.CtxFacts.forkCopiesInCaller Pcore.CtxFacts.factsBefore = false ∧
+    Pcore.CtxFacts.doUsesScopedRoot Pcore.CtxFacts.factsBefore = false := by decide
+
+/-! ## goroutine ids: `threadlocal.getg()` parses what the runtime prints (`Model/Gid.lean`) -/
+
+/-- the digit loop of `getg()` applied to the first 64 bytes of `runtime.Stack` output ("goroutine N [status]:…") returns N,
+    for every goroutine id 0 < N < 2^63 (int64 arithmetic, no overflow) -/
+theorem C14_getg {n : Nat} (h0 : 0 < n) (hn : n < 2 ^ 63) {rest : List UInt8} (hr : Pcore.Gid.stops rest = true) :
+    Pcore.Gid.getg64 (Pcore.Gid.stackBuf n rest) = some (n : Int) := Pcore.Gid.getg64_stackBuf h0 hn hr
+
+/-- distinct goroutines get distinct keys of the goroutine-local table -/
+theorem C14_getg_injective {n m : Nat} (h0 : 0 < n) (hn : n < 2 ^ 63) (h0' : 0 < m) (hm : m < 2 ^ 63) {rest rest' : List UInt8}
+    (hr : Pcore.Gid.stops rest = true) (hr' : Pcore.Gid.stops rest' = true)
+    (h : Pcore.Gid.getg64 (Pcore.Gid.stackBuf n rest) = Pcore.Gid.getg64 (Pcore.Gid.stackBuf m rest')) : n = m :=
+  Pcore.Gid.getg64_injective h0 hn h0' hm hr hr' h
+
+/-- the bound is sharp: from 2^63 on the int64 accumulator wraps -/
+theorem C14_getg_iff {n : Nat} (h0 : 0 < n) (hn : n < 10 ^ 54) {rest : List UInt8} (hr : Pcore.Gid.stops rest = true) :
+    Pcore.Gid.getg64 (Pcore.Gid.stackBuf n rest) = some (n : Int) ↔ n < 2 ^ 63 := Pcore.Gid.getg64_stackBuf_iff h0 hn hr
+
+example : Pcore.Gid.stops (0x20 :: []) = true := by decide
 
 /-! ## the original code (`Ver.before`, tag verif-base) violates the property — witnesses -/
 
